@@ -1,7 +1,7 @@
 """Per-property exploration: which harness runs, what is compared, which oracle clauses count."""
 import os, sys, json, random, glob, collections, multiprocessing, time
 VERIF = os.path.dirname(os.path.dirname(os.path.abspath(__file__)))
-from harness import common, l1, store_oracle, tbuffer, tfleet, belt, storeq, factory, factory_oracle
+from harness import common, l1, store_oracle, tbuffer, tfleet, belt, convfactory, storeq, factory, factory_oracle
 
 # fields of a row whose disagreement (model vs implementation) concerns each store-level property
 L1_FIELDS = {
@@ -501,6 +501,22 @@ def _f_search_worker(args):
     return found
 
 
+def _conv_worker(args):
+    n, seed = args
+    rng = random.Random(seed)
+    out = dict(evals=0, viol=[], tags=collections.Counter())
+    for _ in range(n):
+        c = convfactory.gen_case(rng)
+        o = convfactory.run_impl(c)
+        out["evals"] += 1
+        out["tags"].update(["conveyor-factory:" + c["shape"], "conveyor:" + c["convs"][0]["kind"]] +
+                           (["non-blocking node before a conveyor"] if not (c["src_blocking"] and c["m_blocking"]) else []))
+        for tag, msg in convfactory.oracle(c, o):
+            if len(out["viol"]) < 3:
+                out["viol"].append(dict(**{"class": "convfactory"}, message="[conveyor-factory/%s] %s" % (tag, msg), case=c))
+    return out
+
+
 def run_factory(pid, tier, seed):
     n = 1600 if tier == "quick" else 48000
     shards = 16
@@ -531,6 +547,19 @@ def run_factory(pid, tier, seed):
                    "situations reached); every factory moves items, so all are non-trivial")
     res["distribution"] = dict(factories_reaching=dict(tags), canonical_lines_compared=lines)
     res["domain"] = "node types Source (items / pallets), Machine, Splitter, Combiner, Sink; edge types Buffer, Fleet (conveyor belts are not in the factory model)"
+    if pid == "C20":
+        # factories with conveyor edges: not in the Gallina factory model; crash freedom, progress of time and counts only
+        nc = 320 if tier == "quick" else 9600
+        with multiprocessing.Pool(16) as pool:
+            couts = pool.map(_conv_worker, [(nc // 16, seed * 811 + k) for k in range(16)])
+        ctags = collections.Counter()
+        for o in couts:
+            res["evaluations"] += o["evals"]; res["violations"] += o["viol"][:1]; ctags.update(o["tags"])
+        res["rule"] += ("; plus small lines with continuous / slotted conveyors between Source, Machine and Sink (blocking and non-blocking, "
+                        "FIRST_AVAILABLE / ROUND_ROBIN) built from the real classes and run to the horizon: no unhandled exception, time advances, "
+                        "received + discarded <= generated (not compared with a model)")
+        res["distribution"]["conveyor_factories"] = dict(ctags)
+        res["domain"] += "; conveyors inside factories: crash freedom explored only"
     return res
 
 
